@@ -367,6 +367,9 @@ def run(tier):
                ('enum E1 : signed char { M = -128, N = 127 }; return sizeof(M);', 1), ('enum E2 : short { M = -32768 }; return sizeof(M);', 2),
                ('enum E3 : int { M = -2147483648 }; return _Generic(M, long: 2, default: 1);', 1), ('enum E4 : long { M = -9223372036854775807 - 1 }; return sizeof(M);', 8),
                ('enum { A = -9223372036854775807 - 1, B = 9223372036854775807 }; return sizeof(B);', 8),
+               # the type of adjacent string literals: one prefix anywhere gives the whole literal that element type (6.4.5p5)
+               ('return _Generic(u"ab" "cd", unsigned short *: 1, char *: 2, default: 3);', 1), ('return _Generic(U"ab" "cd", unsigned *: 1, char *: 2, default: 3);', 1), ('return _Generic("ab" u"cd" "e", unsigned short *: 1, char *: 2, default: 3);', 1),
+               ('return sizeof(u"ab" "cd");', 10), ('return sizeof("ab" U"cd" "e");', 24), ('return sizeof(L"ab" "cd" "");', 20), ('return sizeof("ab" "cd");', 5),
                # size_t results
                ('struct S { char a; long b; }; return _Generic(__builtin_offsetof(struct S, b), unsigned long: 1, long: 2, default: 3);', 1), ('return _Generic(sizeof(int), unsigned long: 1, long: 2, default: 3);', 1),
                ('return _Generic(_Alignof(int), unsigned long: 1, long: 2, default: 3);', 1), ('struct S { char a; long b; }; return _Generic(__builtin_offsetof(struct S, b) + 1, unsigned long: 1, long: 2, default: 3);', 1),
